@@ -15,6 +15,7 @@ mod cases_lenders;
 mod cases_vfilter;
 mod cases_select;
 mod cases_shard;
+mod cases_vfunc;
 mod cases_ef;
 mod cases_rcl;
 mod cases_atomic;
@@ -92,6 +93,7 @@ fn dispatch(case: &str, ctx: &mut Ctx, one: Option<&str>, rng: &mut Rng, budget:
         "ef_seq" | "ef_dict" | "ef_builder" | "ef_big" => cases_ef::run(case, ctx, one, rng, budget),
         "atomic" => cases_atomic::run(case, ctx, one, rng, budget),
         "rcl" => cases_rcl::run(case, ctx, one, rng, budget),
+        "vfunc" => cases_vfunc::run(case, ctx, one, rng, budget),
         "shard_edge" => cases_shard::run(case, ctx, one, rng, budget),
         "select_all" => cases_select::run(case, ctx, one, rng, budget),
         "vfilter" => cases_vfilter::run(case, ctx, one, rng, budget),
